@@ -61,6 +61,10 @@ func renderOK1(bar bool, xs, ys []float64) (ok bool) {
 	return g.Render(chart.PNG, io.Discard) == nil
 }
 
+type failingWriter struct{}
+
+func (failingWriter) Write(p []byte) (int, error) { return 0, fmt.Errorf("sink refuses the write") }
+
 func itoa(i int) string {
 	if i == 0 {
 		return "0"
@@ -194,6 +198,20 @@ func (r *Runner) execView(o Op, df *dataframe.DataFrame) Out {
 		}
 		if st, e := os.Stat(path); e != nil || st.Size() == 0 {
 			return Out{Status: "err", Msg: "plot reported success but wrote no file"}
+		}
+		return Out{Status: "ok", Val: &Val{K: "none"}}
+	case "iofail":
+		// an export whose sink fails: a writer that refuses every write, or the file /dev/full.  Whether the
+		// failure is reported is recorded, not judged; what matters is that nothing else changes and that later
+		// exports are not affected
+		var err error
+		if o.ViaFile {
+			err = df.ToCSV("/dev/full")
+		} else {
+			err = df.ToCSVWriter(failingWriter{})
+		}
+		if err != nil {
+			return errOut(err)
 		}
 		return Out{Status: "ok", Val: &Val{K: "none"}}
 	case "groupbyother":
